@@ -2,7 +2,7 @@
 //! exact; the canonical form lower-cases exactly the RFC 4034 §6.2 /
 //! RFC 6840 §5.1 names.
 //!
-//! Five exhaustive enumerations (engine: `gramx`):
+//! Seven exhaustive enumerations (engine: `gramx`):
 //!
 //! 1. VALUES: for every record type the full product of per-field boundary
 //!    menus (generator: `mc::rgen`), each value carrying an independent
@@ -40,6 +40,15 @@
 //!    Opt<[u8]>; each route must agree with the direct call and with the
 //!    expected canonical form.
 //!
+//! 7. SEQUENCES: 2-3 compose steps on one compressing target (three
+//!    compressors x Vec / bounded buffer, raw target and MessageBuilder)
+//!    with truncations between them (record start, RDLENGTH field, inside
+//!    the first embedded name, failed attempt inside the RDATA, push limit,
+//!    rewind), over every name-bearing type and a family of related names;
+//!    the record data composed last (and every record still complete) must
+//!    have RDLENGTH == octets written, decompress in the final buffer to
+//!    the value composed, and parse back equal.
+//!
 //! Oracle per value v: compose_rdata(v) == reference; rdlen == octets
 //! written; parse(compose(v)) == v (stand-alone parser and through whole
 //! messages built on a plain target and on the three compressing targets,
@@ -64,6 +73,7 @@ use domain::rdata::AllRecordData;
 use mc::rgen::{self, Event, Rd, Tier, Value};
 use mc::wire as w;
 use mc::*;
+use octseq::builder::{OctetsBuilder, ShortBuf, Truncate};
 use octseq::Parser;
 use rayon::prelude::*;
 use serde_json::{json, Value as J};
@@ -2975,6 +2985,899 @@ fn run_layouts(env: &Env, lc: &mut Local) -> u64 {
     n
 }
 
+//------------ compose sequences with truncation ---------------------------------------
+//
+// Part 7. Everything above composes a value on a FRESH target, once. A
+// compressing target has a memory (which names sit at which offsets), and the
+// library itself truncates targets: a failed `push` (buffer full, push
+// limit), a section `rewind()`, the error path of `compose_len_rdata`. After
+// a truncation the memory must describe the octets that are still there and
+// nothing else, or the next record data composed at the same place gets a
+// pointer into octets that now mean something different.
+//
+// Alphabet: a family of related names (suffix, same leading labels, longer,
+// case variant, unrelated) x every name-bearing type x 2-3 compose steps x
+// cut positions between the steps x three compressors x {Vec, bounded buffer
+// on which the first attempt fails inside the RDATA} x {raw target driven
+// with compose_len_rdata / truncate, MessageBuilder driven with push /
+// rewind / push limit}.
+//
+// Oracle (independent reader `mc::wire`): for every record that is still
+// complete at the end, RDLENGTH == octets written, literal RDATA octets ==
+// reference, every embedded name decompresses (pointers strictly backwards
+// into the final buffer) to the name of the value composed there, names are
+// compressed only in RFC 3597 §4 types; then the library's own parser must
+// return a value equal to the composed one.
+
+#[derive(Clone, Debug)]
+struct Bounded {
+    v: Vec<u8>,
+    cap: std::cell::Cell<usize>,
+}
+
+impl OctetsBuilder for Bounded {
+    type AppendError = ShortBuf;
+    fn append_slice(&mut self, slice: &[u8]) -> Result<(), ShortBuf> {
+        if self.v.len() + slice.len() > self.cap.get() {
+            Err(ShortBuf)
+        } else {
+            self.v.extend_from_slice(slice);
+            Ok(())
+        }
+    }
+}
+impl Truncate for Bounded {
+    fn truncate(&mut self, len: usize) {
+        self.v.truncate(len)
+    }
+}
+impl AsRef<[u8]> for Bounded {
+    fn as_ref(&self) -> &[u8] {
+        &self.v
+    }
+}
+impl AsMut<[u8]> for Bounded {
+    fn as_mut(&mut self) -> &mut [u8] {
+        &mut self.v
+    }
+}
+impl Composer for Bounded {}
+
+trait SeqTarget: Composer + Clone + Sized {
+    const COMP: &'static str;
+    const BUF: &'static str;
+    fn fresh() -> Self;
+    fn set_cap(&self, cap: usize);
+}
+
+macro_rules! seq_targets {
+    ($($c:ident => $n:literal),*) => {$(
+        impl SeqTarget for $c<Vec<u8>> {
+            const COMP: &'static str = $n;
+            const BUF: &'static str = "Vec";
+            fn fresh() -> Self { $c::new(Vec::new()) }
+            fn set_cap(&self, _cap: usize) {}
+        }
+        impl SeqTarget for $c<Bounded> {
+            const COMP: &'static str = $n;
+            const BUF: &'static str = "Bounded";
+            fn fresh() -> Self { $c::new(Bounded { v: Vec::new(), cap: std::cell::Cell::new(usize::MAX) }) }
+            fn set_cap(&self, cap: usize) { self.as_target().cap.set(cap) }
+        }
+    )*};
+}
+seq_targets!(StaticCompressor => "Static", TreeCompressor => "Tree", HashCompressor => "Hash");
+
+enum SeqPart {
+    Lit(Vec<u8>),
+    Nm(usize),
+}
+
+struct SeqVal {
+    rtype: u16,
+    parts: Vec<SeqPart>,
+    /// offset of the first embedded name inside the (uncompressed) RDATA
+    first_name_off: usize,
+    data: Rd,
+    desc: String,
+}
+
+struct SeqTable {
+    /// (presentation, labels, library name)
+    fam: Vec<(&'static str, Vec<Vec<u8>>, VN)>,
+    vals: Vec<SeqVal>,
+    /// question / owner menu: indices into `fam` (None: no question, owner root)
+    questions: Vec<Option<usize>>,
+    /// values that make the history (first steps)
+    first: Vec<usize>,
+    /// first steps that fail on the bounded buffer
+    first_fail: Vec<usize>,
+    /// records pushed before the first step and kept (builder route, thorough)
+    kept_before: Vec<usize>,
+    /// values composed last
+    second: Vec<usize>,
+    /// values composed last after a failed attempt
+    second_after_fail: Vec<usize>,
+    /// values for three-step sequences, per step
+    triple: [Vec<usize>; 2],
+}
+
+fn seq_table(tier: Tier) -> Result<SeqTable, String> {
+    let full = tier == Tier::Thorough;
+    let mut names: Vec<(&'static str, Vec<&[u8]>)> = vec![
+        ("x.", vec![b"x"]),
+        ("a.", vec![b"a"]),
+        ("a.x.", vec![b"a", b"x"]),
+        ("x.a.", vec![b"x", b"a"]),
+        ("b.a.x.", vec![b"b", b"a", b"x"]),
+        ("A.X.", vec![b"A", b"X"]),
+        ("y.", vec![b"y"]),
+    ];
+    if full {
+        names.push(("X.", vec![b"X"]));
+        names.push(("x.x.", vec![b"x", b"x"]));
+        names.push(("c.b.a.x.", vec![b"c", b"b", b"a", b"x"]));
+    }
+    let mut fam = Vec::new();
+    for (p, l) in names {
+        let labels: Vec<Vec<u8>> = l.iter().map(|x| x.to_vec()).collect();
+        let n = Name::from_octets(w::to_wire(&labels)).map_err(|e| format!("family name {p}: {e}"))?;
+        fam.push((p, labels, n));
+    }
+    let nf = fam.len();
+    let mut vals = Vec::new();
+    let mut first = Vec::new();
+    let mut first_fail = Vec::new();
+    let mut kept_before = Vec::new();
+    let mut second = Vec::new();
+    let mut second_after_fail = Vec::new();
+    let mut triple = [Vec::new(), Vec::new()];
+    for (rtype, tmpl) in layout_templates() {
+        let slots = tmpl.iter().filter(|p| p.is_none()).count();
+        let mut combos: Vec<(Vec<usize>, bool)> = Vec::new(); // (names, in the restricted pair menu)
+        product(&vec![nf; slots], |idx| {
+            let restricted = slots < 2 || idx[1] == idx[0] || idx[1] == (idx[0] + 1) % nf;
+            if full || restricted {
+                combos.push((idx.to_vec(), restricted));
+            }
+        });
+        for (idx, restricted) in combos {
+            let mut parts = Vec::new();
+            let mut reference = Vec::new();
+            let mut first_name_off = None;
+            let mut k = 0;
+            for p in &tmpl {
+                match p {
+                    Some(b) => {
+                        reference.extend_from_slice(b);
+                        parts.push(SeqPart::Lit(b.clone()));
+                    }
+                    None => {
+                        first_name_off.get_or_insert(reference.len());
+                        reference.extend_from_slice(&w::to_wire(&fam[idx[k]].1));
+                        parts.push(SeqPart::Nm(idx[k]));
+                        k += 1;
+                    }
+                }
+            }
+            let desc = format!("{}({})", rtype_label(rtype), idx.iter().map(|i| fam[*i].0).collect::<Vec<_>>().join(" "));
+            let data = guard(|| -> Result<Rd, String> {
+                use domain::base::name::FlattenInto;
+                let mut p = Parser::from_ref(reference.as_slice());
+                let d = PRd::parse_any_rdata(Rtype::from_int(rtype), &mut p).map_err(|e| e.to_string())?;
+                if p.remaining() != 0 {
+                    return Err("octets left".into());
+                }
+                d.try_flatten_into().map_err(|_: std::convert::Infallible| String::new())
+            })
+            .and_then(|r| r)
+            .map_err(|e| format!("{desc}: {e}"))?;
+            let vi = vals.len();
+            vals.push(SeqVal { rtype, parts, first_name_off: first_name_off.unwrap_or(0), data, desc });
+            let history_type = full || matches!(rtype, 2 | 15 | 6 | 33);
+            if history_type && restricted {
+                first.push(vi);
+            }
+            if matches!(rtype, 2 | 15 | 6 | 33 | 14) && restricted && (full || rtype != 14) {
+                first_fail.push(vi);
+            }
+            if (rtype == 2 && idx[0] == 4) || (rtype == 15 && idx[0] == 3) {
+                kept_before.push(vi);
+            }
+            second.push(vi);
+            if restricted && (MAY_COMPRESS.contains(&rtype) || rtype == 33) {
+                second_after_fail.push(vi);
+            }
+            if rtype == 2 {
+                triple[0].push(vi);
+            }
+            if rtype == 15 {
+                triple[1].push(vi);
+            }
+        }
+    }
+    let mut questions = vec![None, Some(0), Some(1)];
+    if full {
+        questions.push(Some(2));
+    }
+    Ok(SeqTable { fam, vals, questions, first, first_fail, kept_before, second, second_after_fail, triple })
+}
+
+#[derive(Clone, Copy, Debug, PartialEq, Eq)]
+enum Cut {
+    /// back to the start of the previous record
+    RecStart,
+    /// back to the RDLENGTH field of the previous record
+    RdataStart,
+    /// behind the first label of the first name in the previous RDATA
+    AfterFirstLabel,
+    /// behind the length octet of that label
+    InsideFirstLabel,
+}
+
+#[derive(Clone, Copy, Debug, PartialEq, Eq)]
+enum CapAt {
+    /// room for RDLENGTH, for nothing of the RDATA
+    RdlengthOnly,
+    /// room up to and including the first label of the first name
+    FirstLabel,
+    /// one octet short of the complete RDATA
+    AllButLast,
+    /// RDLENGTH position + n (thorough: every n)
+    Plus(usize),
+}
+
+#[derive(Clone, Copy, Debug, PartialEq, Eq)]
+enum Fail {
+    Cap(CapAt),
+    /// MessageBuilder::set_push_limit at the end of the record
+    Limit,
+}
+
+#[derive(Clone, Copy, Debug, PartialEq, Eq)]
+enum Op {
+    Rec { val: usize, fail: Option<Fail> },
+    Cut(Cut),
+    /// AnswerBuilder::rewind
+    Rewind,
+}
+
+fn history_class(ops: &[Op]) -> &'static str {
+    if ops.iter().any(|o| matches!(o, Op::Cut(Cut::AfterFirstLabel | Cut::InsideFirstLabel))) {
+        "cut-inside-a-name"
+    } else if ops.iter().any(|o| matches!(o, Op::Rec { fail: Some(_), .. })) {
+        "after-failed-attempt"
+    } else if ops.iter().any(|o| matches!(o, Op::Cut(_) | Op::Rewind)) {
+        "after-truncation-to-record-or-rdata-start"
+    } else {
+        "append-only"
+    }
+}
+
+struct SeqRec {
+    rec_start: usize,
+    rdlen_pos: usize,
+    end: usize,
+    val: usize,
+}
+
+/// Independent reading of one RDATA (RDLENGTH at `rdlen_pos`, written up to
+/// `end`). Ok(true): at least one name was compressed.
+fn seq_verify(buf: &[u8], rdlen_pos: usize, end: usize, v: &SeqVal, tbl: &SeqTable) -> Result<bool, (&'static str, String)> {
+    let rdlen = w::u16_at(buf, rdlen_pos).map_err(|e| ("rdlength-missing", e))? as usize;
+    if rdlen_pos + 2 + rdlen != end {
+        return Err(("rdlength!=octets-written", format!("RDLENGTH {rdlen}, {} octets written", end as i64 - rdlen_pos as i64 - 2)));
+    }
+    let buf = &buf[..end];
+    let mut pos = rdlen_pos + 2;
+    let mut compressed = false;
+    for part in &v.parts {
+        match part {
+            SeqPart::Lit(b) => {
+                if buf.get(pos..pos + b.len()) != Some(b.as_slice()) {
+                    return Err(("fixed-rdata-octets-differ", format!("at offset {pos}")));
+                }
+                pos += b.len();
+            }
+            SeqPart::Nm(i) => {
+                let mut ptrs = Vec::new();
+                let (labels, next) = w::read_name(buf, pos, &mut ptrs).map_err(|e| ("embedded-name-does-not-decompress-to-the-name-composed", format!("name at offset {pos}: {e}")))?;
+                let expect = &tbl.fam[*i].1;
+                if ptrs.is_empty() {
+                    if &labels != expect {
+                        return Err(("embedded-name-differs", format!("uncompressed name at offset {pos}")));
+                    }
+                } else {
+                    compressed = true;
+                    if !w::labels_eq_ci(&labels, expect) {
+                        return Err((
+                            "embedded-name-does-not-decompress-to-the-name-composed",
+                            format!("name at offset {pos} (pointers {ptrs:?}) reads {:?}, composed {}", labels.iter().map(|l| String::from_utf8_lossy(l).into_owned()).collect::<Vec<_>>().join("."), tbl.fam[*i].0),
+                        ));
+                    }
+                }
+                pos = next;
+            }
+        }
+    }
+    if pos != end {
+        return Err(("rdata-longer-than-its-fields", format!("fields end at {pos}, RDATA at {end}")));
+    }
+    Ok(compressed)
+}
+
+/// The library's parser on the same octets.
+fn seq_lib_parse(buf: &[u8], rdlen_pos: usize, end: usize, v: &SeqVal) -> Result<Result<(), &'static str>, String> {
+    guard(|| {
+        let mut p = Parser::from_ref(&buf[..end]);
+        p.advance(rdlen_pos + 2).map_err(|_| "rejected")?;
+        let mut sub = p.parse_parser(end - rdlen_pos - 2).map_err(|_| "rejected")?;
+        let d = PRd::parse_any_rdata(Rtype::from_int(v.rtype), &mut sub).map_err(|_| "rejected")?;
+        if sub.remaining() != 0 {
+            return Err("octets-left");
+        }
+        if !(d == v.data && v.data == d) {
+            return Err("not-equal");
+        }
+        Ok(())
+    })
+}
+
+struct SeqCase<'a> {
+    tbl: &'a SeqTable,
+    route: &'static str,
+    comp: &'static str,
+    buf: &'static str,
+    q: Option<usize>,
+    ops: &'a [Op],
+}
+
+impl SeqCase<'_> {
+    fn ops_text(&self) -> Vec<String> {
+        self.ops
+            .iter()
+            .map(|o| match o {
+                Op::Rec { val, fail: None } => format!("compose {}", self.tbl.vals[*val].desc),
+                Op::Rec { val, fail: Some(f) } => format!("compose {} (fails: {f:?})", self.tbl.vals[*val].desc),
+                Op::Cut(c) => format!("truncate to {c:?} of the previous record"),
+                Op::Rewind => "rewind()".to_string(),
+            })
+            .collect()
+    }
+    fn json(&self, octets: &[u8]) -> J {
+        json!({"kind": "sequence", "route": self.route, "compressor": self.comp, "buffer": self.buf,
+               "question_and_owner": self.q.map(|i| self.tbl.fam[i].0).unwrap_or("(no question, owner root)"),
+               "ops": self.ops_text(), "octets": hex(&octets[..octets.len().min(512)])})
+    }
+    fn sig(&self, check: &str) -> String {
+        format!("C05|compose-sequence|{}|{}|{}|{check}", self.comp, self.route, history_class(self.ops))
+    }
+    fn text(&self, what: &str) -> String {
+        format!("[{} over {}, {}; question/owner {}] {}: {what}", self.comp, self.buf, self.route, self.q.map(|i| self.tbl.fam[i].0).unwrap_or("-"), self.ops_text().join("; "))
+    }
+}
+
+/// Check every complete record of the final buffer. `recs`: (RDLENGTH
+/// position, end, value).
+fn seq_check_records(env: &Env, c: &SeqCase, octets: &[u8], recs: &[(usize, usize, usize)], lc: &mut Local) -> bool {
+    let key = format!("SEQ-{}/{}/{}", c.comp, c.buf, c.route);
+    for &(rdlen_pos, end, val) in recs {
+        let v = &c.tbl.vals[val];
+        match seq_verify(octets, rdlen_pos, end, v, c.tbl) {
+            Err((class, what)) => {
+                env.viol(c.sig(class), c.text(&format!("record data {} at {rdlen_pos}: {what}", v.desc)), c.json(octets));
+                return false;
+            }
+            Ok(compressed) => {
+                if compressed {
+                    lc.inc(format!("{key}:compressed"));
+                    if !MAY_COMPRESS.contains(&v.rtype) {
+                        env.viol(c.sig("name-compressed-in-type-outside-rfc3597-4-well-known-list"), c.text(&format!("record data {} at {rdlen_pos}", v.desc)), c.json(octets));
+                        return false;
+                    }
+                }
+            }
+        }
+        match seq_lib_parse(octets, rdlen_pos, end, v) {
+            Err(e) => {
+                env.viol(c.sig(&format!("library-parse|panic|{}", panic_class(&e))), c.text(&format!("record data {} at {rdlen_pos}: {e}", v.desc)), c.json(octets));
+                return false;
+            }
+            Ok(Err(class)) => {
+                env.viol(c.sig(&format!("library-parse|{class}")), c.text(&format!("record data {} at {rdlen_pos}", v.desc)), c.json(octets));
+                return false;
+            }
+            Ok(Ok(())) => {}
+        }
+    }
+    true
+}
+
+fn cap_for(cap: CapAt, buf: &[u8], rdlen_pos: usize, fn_pos: usize, end: usize) -> Option<usize> {
+    let c = match cap {
+        CapAt::RdlengthOnly => rdlen_pos + 2,
+        CapAt::FirstLabel => {
+            let b = *buf.get(fn_pos)? as usize;
+            if b == 0 || b >= 64 {
+                return None;
+            }
+            fn_pos + 1 + b
+        }
+        CapAt::AllButLast => end.checked_sub(1)?,
+        CapAt::Plus(n) => rdlen_pos + n,
+    };
+    // the attempt has to fail, and has to fail inside the record data
+    if c >= rdlen_pos && c < end {
+        Some(c)
+    } else {
+        None
+    }
+}
+
+const SEQ_FIXED: [u8; 8] = [0, 0, 0, 1, 0, 0, 14, 16];
+
+/// Raw route: the harness plays the message builder on the bare target:
+/// header octets, a question, then records written as owner
+/// (`append_compressed_name`) + type/class/TTL + `compose_len_rdata`, with
+/// `Truncate::truncate` between them. Returns false if the case was not
+/// applicable (cut or capacity position does not exist for these values).
+fn seq_raw<T: SeqTarget>(env: &Env, tbl: &SeqTable, q: Option<usize>, ops: &[Op], lc: &mut Local) -> bool {
+    let c = SeqCase { tbl, route: "raw-target", comp: T::COMP, buf: T::BUF, q, ops };
+    let key = format!("SEQ-{}/{}/{}", c.comp, c.buf, c.route);
+    let owner: VN = q.map(|i| tbl.fam[i].2.clone()).unwrap_or_else(|| Name::from_octets(vec![0u8]).unwrap());
+    let owner_labels: Vec<Vec<u8>> = q.map(|i| tbl.fam[i].1.clone()).unwrap_or_default();
+    // Err(None): not applicable; Err(Some): violation (class, text, octets)
+    let run = guard(|| -> Result<(Vec<u8>, Vec<SeqRec>), Option<(String, String, Vec<u8>)>> {
+        let mut t = T::fresh();
+        let bad = |class: &str, what: String, t: &T| Some((class.to_string(), what, t.as_ref().to_vec()));
+        if t.append_slice(&[0u8; 12]).is_err() {
+            return Err(bad("append-refused-without-capacity-limit", "header".into(), &t));
+        }
+        if q.is_some() {
+            if t.append_compressed_name(&owner).is_err() || t.append_slice(&[0, 1, 0, 1]).is_err() {
+                return Err(bad("append-refused-without-capacity-limit", "question".into(), &t));
+            }
+        }
+        let mut recs: Vec<SeqRec> = Vec::new();
+        // (rec_start, rdlen_pos, position of the first name) of the last attempt
+        let mut last: Option<(usize, usize, usize)> = None;
+        let mut reuse_header = false;
+        for op in ops {
+            match *op {
+                Op::Rec { val, fail } => {
+                    let v = &tbl.vals[val];
+                    let (rec_start, rdlen_pos);
+                    if let (true, Some(l)) = (reuse_header, last) {
+                        rec_start = l.0;
+                        rdlen_pos = t.as_ref().len();
+                        t.as_mut()[rdlen_pos - 8..rdlen_pos - 6].copy_from_slice(&v.rtype.to_be_bytes());
+                    } else {
+                        rec_start = t.as_ref().len();
+                        let mut fixed = SEQ_FIXED;
+                        fixed[..2].copy_from_slice(&v.rtype.to_be_bytes());
+                        if t.append_compressed_name(&owner).is_err() || t.append_slice(&fixed).is_err() {
+                            return Err(bad("append-refused-without-capacity-limit", "owner and fixed fields".into(), &t));
+                        }
+                        rdlen_pos = t.as_ref().len();
+                    }
+                    reuse_header = false;
+                    let fn_pos = rdlen_pos + 2 + v.first_name_off;
+                    last = Some((rec_start, rdlen_pos, fn_pos));
+                    match fail {
+                        None => {
+                            if v.data.compose_len_rdata(&mut t).is_err() {
+                                return Err(bad("compose_len_rdata-refused-without-capacity-limit", v.desc.clone(), &t));
+                            }
+                            recs.push(SeqRec { rec_start, rdlen_pos, end: t.as_ref().len(), val });
+                        }
+                        Some(Fail::Cap(cap)) => {
+                            // where would the record data end?
+                            let mut dry = t.clone();
+                            if v.data.compose_len_rdata(&mut dry).is_err() {
+                                return Err(bad("compose_len_rdata-refused-without-capacity-limit", v.desc.clone(), &t));
+                            }
+                            let cap = cap_for(cap, dry.as_ref(), rdlen_pos, fn_pos, dry.as_ref().len()).ok_or(None)?;
+                            t.set_cap(cap);
+                            let r = v.data.compose_len_rdata(&mut t);
+                            t.set_cap(usize::MAX);
+                            if r.is_ok() {
+                                return Err(bad("compose_len_rdata-succeeds-on-a-target-too-small-for-the-same-data", format!("{} with capacity {cap}", v.desc), &t));
+                            }
+                            if t.as_ref().len() > cap {
+                                return Err(bad("target-longer-than-its-capacity", format!("{} with capacity {cap}", v.desc), &t));
+                            }
+                        }
+                        Some(Fail::Limit) => return Err(None),
+                    }
+                }
+                Op::Cut(cut) => {
+                    let (rec_start, rdlen_pos, fn_pos) = last.ok_or(None)?;
+                    let len = t.as_ref().len();
+                    let to = match cut {
+                        Cut::RecStart => rec_start,
+                        Cut::RdataStart => rdlen_pos,
+                        Cut::AfterFirstLabel | Cut::InsideFirstLabel => {
+                            let b = *t.as_ref().get(fn_pos).ok_or(None)? as usize;
+                            if b == 0 {
+                                return Err(None);
+                            }
+                            if b < 64 && cut == Cut::AfterFirstLabel {
+                                fn_pos + 1 + b
+                            } else {
+                                fn_pos + 1
+                            }
+                        }
+                    };
+                    if to > len {
+                        return Err(None);
+                    }
+                    t.truncate(to);
+                    if t.as_ref().len() != to {
+                        return Err(bad("truncate-leaves-other-length", format!("truncate({to}) leaves {}", t.as_ref().len()), &t));
+                    }
+                    recs.retain(|r| r.end <= to);
+                    reuse_header = cut == Cut::RdataStart;
+                }
+                Op::Rewind => return Err(None),
+            }
+        }
+        Ok((t.as_ref().to_vec(), recs))
+    });
+    match run {
+        Err(e) => {
+            lc.ev();
+            lc.inc(format!("{key}:cases"));
+            env.viol(c.sig(&format!("panic|{}", panic_class(&e))), c.text(&e), c.json(&[]));
+            true
+        }
+        Ok(Err(None)) => {
+            lc.inc(format!("{key}:not-applicable"));
+            false
+        }
+        Ok(Err(Some((class, what, octets)))) => {
+            lc.ev();
+            lc.inc(format!("{key}:cases"));
+            env.viol(c.sig(&class), c.text(&what), c.json(&octets));
+            true
+        }
+        Ok(Ok((octets, recs))) => {
+            lc.ev();
+            lc.inc(format!("{key}:cases"));
+            // owners of the surviving records
+            for r in &recs {
+                let mut ptrs = Vec::new();
+                match w::read_name(&octets[..r.end], r.rec_start, &mut ptrs) {
+                    Ok((labels, next)) if next + 8 == r.rdlen_pos && w::labels_eq_ci(&labels, &owner_labels) => {}
+                    other => {
+                        env.viol(c.sig("owner-decompresses-to-other-name"), c.text(&format!("owner at {}: {:?}", r.rec_start, other.map(|x| x.1))), c.json(&octets));
+                        return true;
+                    }
+                }
+            }
+            let list: Vec<(usize, usize, usize)> = recs.iter().map(|r| (r.rdlen_pos, r.end, r.val)).collect();
+            if seq_check_records(env, &c, &octets, &list, lc) {
+                lc.inc(format!("{key}:roundtripped"));
+                let mut k = octets;
+                k.extend_from_slice(c.comp.as_bytes());
+                k.push(0xF7);
+                lc.distinct.push(fnv(&k));
+            }
+            true
+        }
+    }
+}
+
+/// Builder route: the same sequences through MessageBuilder: push, failed
+/// push (buffer full / push limit), rewind of the answer section.
+fn seq_builder<T: SeqTarget>(env: &Env, tbl: &SeqTable, q: Option<usize>, ops: &[Op], lc: &mut Local) -> bool {
+    let c = SeqCase { tbl, route: "message-builder", comp: T::COMP, buf: T::BUF, q, ops };
+    let key = format!("SEQ-{}/{}/{}", c.comp, c.buf, c.route);
+    let owner: VN = q.map(|i| tbl.fam[i].2.clone()).unwrap_or_else(|| Name::from_octets(vec![0u8]).unwrap());
+    let owner_labels: Vec<Vec<u8>> = q.map(|i| tbl.fam[i].1.clone()).unwrap_or_default();
+    let run = guard(|| -> Result<(Vec<u8>, Vec<usize>), Option<(String, String, Vec<u8>)>> {
+        let bad = |class: &str, what: String, o: &[u8]| Some((class.to_string(), what, o.to_vec()));
+        let mb = MessageBuilder::from_target(T::fresh()).map_err(|_| bad("push-refused-without-limit", "header".into(), &[]))?;
+        let mut qb = mb.question();
+        if q.is_some() {
+            qb.push((&owner, Rtype::A)).map_err(|_| bad("push-refused-without-limit", "question".into(), &[]))?;
+        }
+        let mut a = qb.answer();
+        let mut kept: Vec<usize> = Vec::new();
+        for op in ops {
+            match *op {
+                Op::Rec { val, fail } => {
+                    let v = &tbl.vals[val];
+                    let rec = Record::new(&owner, Class::IN, Ttl::from_secs(3600), &v.data);
+                    match fail {
+                        None => {
+                            if a.push(&rec).is_err() {
+                                return Err(bad("push-refused-without-limit", v.desc.clone(), a.as_slice()));
+                            }
+                            kept.push(val);
+                        }
+                        Some(f) => {
+                            let before = a.as_slice().len();
+                            let mut dry = a.clone();
+                            if dry.push(&rec).is_err() {
+                                return Err(bad("push-refused-without-limit", v.desc.clone(), a.as_slice()));
+                            }
+                            let d = dry.as_slice();
+                            let mut ptrs = Vec::new();
+                            let (_, next) = w::read_name(d, before, &mut ptrs).map_err(|e| bad("owner-unreadable", e, d))?;
+                            let rdlen_pos = next + 8;
+                            match f {
+                                Fail::Limit => a.set_push_limit(d.len()),
+                                Fail::Cap(cap) => {
+                                    let cap = cap_for(cap, d, rdlen_pos, rdlen_pos + 2 + v.first_name_off, d.len()).ok_or(None)?;
+                                    a.as_target().set_cap(cap);
+                                }
+                            }
+                            let r = a.push(&rec);
+                            a.clear_push_limit();
+                            a.as_target().set_cap(usize::MAX);
+                            if r.is_ok() {
+                                return Err(bad("push-succeeds-beyond-limit", v.desc.clone(), a.as_slice()));
+                            }
+                            if a.as_slice().len() != before {
+                                return Err(bad("failed-push-leaves-octets", format!("{}: {} octets before, {} after", v.desc, before, a.as_slice().len()), a.as_slice()));
+                            }
+                        }
+                    }
+                }
+                Op::Rewind => {
+                    a.rewind();
+                    kept.clear();
+                }
+                Op::Cut(_) => return Err(None),
+            }
+        }
+        Ok((a.finish().as_ref().to_vec(), kept))
+    });
+    lc_count_builder(env, &c, &key, run, &owner_labels, lc)
+}
+
+fn lc_count_builder(env: &Env, c: &SeqCase, key: &str, run: Result<Result<(Vec<u8>, Vec<usize>), Option<(String, String, Vec<u8>)>>, String>, owner_labels: &[Vec<u8>], lc: &mut Local) -> bool {
+    let (octets, kept) = match run {
+        Err(e) => {
+            lc.ev();
+            lc.inc(format!("{key}:cases"));
+            env.viol(c.sig(&format!("panic|{}", panic_class(&e))), c.text(&e), c.json(&[]));
+            return true;
+        }
+        Ok(Err(None)) => {
+            lc.inc(format!("{key}:not-applicable"));
+            return false;
+        }
+        Ok(Err(Some((class, what, octets)))) => {
+            lc.ev();
+            lc.inc(format!("{key}:cases"));
+            env.viol(c.sig(&class), c.text(&what), c.json(&octets));
+            return true;
+        }
+        Ok(Ok(x)) => x,
+    };
+    lc.ev();
+    lc.inc(format!("{key}:cases"));
+    let raw = match w::read_message(&octets) {
+        Ok(r) => r,
+        Err(e) => {
+            env.viol(c.sig("independent-reader-rejects-message"), c.text(&e), c.json(&octets));
+            return true;
+        }
+    };
+    let structure_ok = raw.end == octets.len()
+        && raw.questions.len() == c.q.is_some() as usize
+        && raw.sections[0].len() == kept.len()
+        && raw.sections[1].is_empty()
+        && raw.sections[2].is_empty()
+        && raw.sections[0].iter().zip(&kept).all(|(r, k)| r.rtype == c.tbl.vals[*k].rtype && r.class == 1 && r.ttl == 3600 && w::labels_eq_ci(&r.owner, owner_labels));
+    if !structure_ok {
+        env.viol(
+            c.sig("message-structure-differs-from-pushed-records"),
+            c.text(&format!("{} answers read, {} pushed and kept; message ends at {} of {}", raw.sections[0].len(), kept.len(), raw.end, octets.len())),
+            c.json(&octets),
+        );
+        return true;
+    }
+    let list: Vec<(usize, usize, usize)> = raw.sections[0].iter().zip(&kept).map(|(r, k)| (r.rdata_pos - 2, r.rdata_pos + r.rdata.len(), *k)).collect();
+    if !seq_check_records(env, c, &octets, &list, lc) {
+        return true;
+    }
+    // the library reads the whole message
+    let r = guard(|| -> Result<(), &'static str> {
+        let m = Message::from_octets(octets.as_slice()).map_err(|_| "rejected")?;
+        let mut n = 0;
+        for rec in m.answer().map_err(|_| "rejected")? {
+            let rec = rec.map_err(|_| "rejected")?.to_any_record::<PRd>().map_err(|_| "rejected")?;
+            let v = &c.tbl.vals[*kept.get(n).ok_or("more-records")?];
+            if !(rec.data() == &v.data && &v.data == rec.data()) {
+                return Err("not-equal");
+            }
+            n += 1;
+        }
+        if n != kept.len() {
+            return Err("fewer-records");
+        }
+        Ok(())
+    });
+    match r {
+        Err(e) => env.viol(c.sig(&format!("library-message-read|panic|{}", panic_class(&e))), c.text(&e), c.json(&octets)),
+        Ok(Err(class)) => env.viol(c.sig(&format!("library-message-read|{class}")), c.text(""), c.json(&octets)),
+        Ok(Ok(())) => {
+            lc.inc(format!("{key}:roundtripped"));
+            let mut k = octets;
+            k.extend_from_slice(c.comp.as_bytes());
+            k.push(0xF8);
+            lc.distinct.push(fnv(&k));
+        }
+    }
+    true
+}
+
+/// Cut positions between two steps. All of them are positions the library
+/// itself truncates to (failed push and rewind: a record start; error path of
+/// `compose_len_rdata`: the RDATA start), i.e. between complete names.
+///
+/// Cuts INSIDE a name (behind the first label of the first embedded name,
+/// behind its length octet) are not in the menu: no library path truncates
+/// there, and what is left is not a sequence of complete names any more, so
+/// the property does not say what composing after it has to yield. On the
+/// unchanged library Tree- and HashCompressor keep the entry of a name whose
+/// start survives such a cut and later point to it (StaticCompressor, which
+/// re-reads the buffer, does not). `C05_SEQ_CUT_INSIDE_NAMES=1` adds them
+/// (signature class `cut-inside-a-name`).
+fn seq_cuts(full: bool) -> Vec<Option<Cut>> {
+    let mut cuts = vec![None, Some(Cut::RecStart), Some(Cut::RdataStart)];
+    if std::env::var_os("C05_SEQ_CUT_INSIDE_NAMES").is_some() {
+        cuts.push(Some(Cut::AfterFirstLabel));
+        if full {
+            cuts.push(Some(Cut::InsideFirstLabel));
+        }
+    }
+    cuts
+}
+
+/// The sequences of one (route, compressor, buffer, question, first value).
+fn seq_task<T: SeqTarget>(env: &Env, tbl: &SeqTable, builder: bool, bounded: bool, q: Option<usize>, v1: usize, lc: &mut Local) -> u64 {
+    let full = env.tier == Tier::Thorough;
+    let mut n = 0u64;
+    let mut go = |ops: &[Op], lc: &mut Local| {
+        let applicable = if builder { seq_builder::<T>(env, tbl, q, ops, lc) } else { seq_raw::<T>(env, tbl, q, ops, lc) };
+        n += applicable as u64;
+    };
+    let mut caps = vec![CapAt::RdlengthOnly, CapAt::FirstLabel, CapAt::AllButLast];
+    if full {
+        caps = (0..40).map(CapAt::Plus).collect();
+    }
+    match (builder, bounded) {
+        (false, false) => {
+            let cuts = seq_cuts(full);
+            for cut in &cuts {
+                for &v2 in &tbl.second {
+                    let mut ops = vec![Op::Rec { val: v1, fail: None }];
+                    ops.extend(cut.map(Op::Cut));
+                    ops.push(Op::Rec { val: v2, fail: None });
+                    go(&ops, lc);
+                }
+            }
+        }
+        (false, true) => {
+            // what the caller does after the failed attempt: nothing (the
+            // target as the error path left it), or what the message builder
+            // does (back to the record start), or back to the RDLENGTH field
+            let mut posts = vec![None, Some(Cut::RecStart)];
+            if full {
+                posts.push(Some(Cut::RdataStart));
+            }
+            for cap in &caps {
+                for post in &posts {
+                    for &v2 in &tbl.second_after_fail {
+                        let mut ops = vec![Op::Rec { val: v1, fail: Some(Fail::Cap(*cap)) }];
+                        ops.extend(post.map(Op::Cut));
+                        ops.push(Op::Rec { val: v2, fail: None });
+                        go(&ops, lc);
+                    }
+                }
+            }
+        }
+        (true, false) => {
+            for &v2 in &tbl.second {
+                go(&[Op::Rec { val: v1, fail: None }, Op::Rewind, Op::Rec { val: v2, fail: None }], lc);
+                go(&[Op::Rec { val: v1, fail: Some(Fail::Limit) }, Op::Rec { val: v2, fail: None }], lc);
+            }
+            if full {
+                for &v2 in &tbl.second_after_fail {
+                    for &v0 in &tbl.kept_before {
+                        go(&[Op::Rec { val: v0, fail: None }, Op::Rec { val: v1, fail: Some(Fail::Limit) }, Op::Rec { val: v2, fail: None }], lc);
+                        go(&[Op::Rec { val: v0, fail: None }, Op::Rec { val: v1, fail: None }, Op::Rewind, Op::Rec { val: v2, fail: None }], lc);
+                    }
+                }
+            }
+        }
+        (true, true) => {
+            for cap in &caps {
+                for &v2 in &tbl.second_after_fail {
+                    go(&[Op::Rec { val: v1, fail: Some(Fail::Cap(*cap)) }, Op::Rec { val: v2, fail: None }], lc);
+                }
+            }
+        }
+    }
+    n
+}
+
+/// Three steps with a cut after each of the first two (raw target over Vec):
+/// NS / MX / NS and MX / NS / MX over the whole family.
+fn seq_task_triple<T: SeqTarget>(env: &Env, tbl: &SeqTable, q: Option<usize>, flip: usize, v1: usize, lc: &mut Local) -> u64 {
+    let full = env.tier == Tier::Thorough;
+    let cuts = seq_cuts(full);
+    let mut n = 0;
+    for &v2 in &tbl.triple[1 - flip] {
+        for &v3 in &tbl.triple[flip] {
+            for c1 in &cuts {
+                for c2 in &cuts {
+                    let mut ops = vec![Op::Rec { val: v1, fail: None }];
+                    ops.extend(c1.map(Op::Cut));
+                    ops.push(Op::Rec { val: v2, fail: None });
+                    ops.extend(c2.map(Op::Cut));
+                    ops.push(Op::Rec { val: v3, fail: None });
+                    n += seq_raw::<T>(env, tbl, q, &ops, lc) as u64;
+                }
+            }
+        }
+    }
+    n
+}
+
+#[derive(Clone, Copy)]
+struct SeqTask {
+    comp: usize,
+    builder: bool,
+    bounded: bool,
+    triple: Option<usize>,
+    q: Option<usize>,
+    v1: usize,
+}
+
+fn seq_tasks(tbl: &SeqTable) -> Vec<SeqTask> {
+    let mut tasks = Vec::new();
+    for comp in 0..3 {
+        for builder in [false, true] {
+            for bounded in [false, true] {
+                for &q in &tbl.questions {
+                    for &v1 in if bounded { &tbl.first_fail } else { &tbl.first } {
+                        tasks.push(SeqTask { comp, builder, bounded, triple: None, q, v1 });
+                    }
+                }
+            }
+        }
+        for &q in tbl.questions.iter().filter(|q| q.is_some()) {
+            for flip in 0..2 {
+                for &v1 in &tbl.triple[flip] {
+                    tasks.push(SeqTask { comp, builder: false, bounded: false, triple: Some(flip), q, v1 });
+                }
+            }
+        }
+    }
+    tasks
+}
+
+fn seq_run_task(env: &Env, tbl: &SeqTable, t: &SeqTask, lc: &mut Local) -> u64 {
+    macro_rules! with {
+        ($c:ident) => {
+            match (t.triple, t.bounded) {
+                (Some(flip), _) => seq_task_triple::<$c<Vec<u8>>>(env, tbl, t.q, flip, t.v1, lc),
+                (None, false) => seq_task::<$c<Vec<u8>>>(env, tbl, t.builder, false, t.q, t.v1, lc),
+                (None, true) => seq_task::<$c<Bounded>>(env, tbl, t.builder, true, t.q, t.v1, lc),
+            }
+        };
+    }
+    match t.comp {
+        0 => with!(StaticCompressor),
+        1 => with!(TreeCompressor),
+        _ => with!(HashCompressor),
+    }
+}
+
 //------------ main ------------------------------------------------------------------
 
 fn tier_from(s: &str) -> Tier {
@@ -3016,6 +3919,17 @@ fn replay(env: &Env, path: &str) {
             let os = case["owner_shape"].as_u64().unwrap_or(0) as usize;
             let tmpl = if rtype == 1 { vec![Some(vec![192, 0, 2, 1])] } else { layout_templates().into_iter().find(|t| t.0 == rtype).map(|t| t.1).unwrap_or_default() };
             check_layout(env, rtype, &tmpl, os, &shapes, case["core"].as_bool().unwrap_or(false), &mut lc);
+        }
+        Some("sequence") => {
+            // cheap: re-run all of them
+            match seq_table(env.tier) {
+                Ok(tbl) => {
+                    for t in seq_tasks(&tbl) {
+                        seq_run_task(env, &tbl, &t, &mut lc);
+                    }
+                }
+                Err(e) => println!("sequence table: {e}"),
+            }
         }
         Some("bytes") => {
             let rtype = case["rtype"].as_u64().unwrap_or(0) as u16;
@@ -3153,6 +4067,45 @@ fn main() {
         flush(&ctx, vec![take_vbuf()]);
     }
 
+    // 5. compose sequences with truncation
+    let sequence_cases = std::sync::atomic::AtomicU64::new(0);
+    let mut sequence_menu = json!(null);
+    match seq_table(tier) {
+        Err(e) => {
+            ctx.violation("C05|compose-sequence|harness-value-table-invalid", &e, json!({"kind": "sequence"}));
+        }
+        Ok(tbl) => {
+            let tasks = seq_tasks(&tbl);
+            sequence_menu = json!({
+                "name_family": tbl.fam.iter().map(|f| f.0).collect::<Vec<_>>(),
+                "question_and_owner": tbl.questions.iter().map(|q| q.map(|i| tbl.fam[i].0).unwrap_or("(none, owner root)")).collect::<Vec<_>>(),
+                "values": tbl.vals.len(),
+                "first_step_values": tbl.first.len(),
+                "first_step_values_failing_on_bounded_buffer": tbl.first_fail.len(),
+                "last_step_values": tbl.second.len(),
+                "last_step_values_after_failed_attempt": tbl.second_after_fail.len(),
+                "tasks": tasks.len(),
+            });
+            let vbufs: Vec<VBuf> = tasks.par_iter().map(|t| {
+                let mut lc = Local::default();
+                let _ = take_vbuf();
+                wd.enter(|| json!({"type": "SEQUENCES"}));
+                let n = seq_run_task(&env, &tbl, t, &mut lc);
+                wd.leave();
+                sequence_cases.fetch_add(n, std::sync::atomic::Ordering::Relaxed);
+                let mut m = merged.lock().unwrap();
+                for (k, v) in lc.c {
+                    *m.c.entry(k).or_insert(0) += v;
+                }
+                m.evals += lc.evals;
+                env.stats.distinct_many(lc.distinct);
+                drop(m);
+                take_vbuf()
+            }).collect();
+            flush(&ctx, vbufs);
+        }
+    }
+
     // report
     let m = merged.into_inner().unwrap();
     let mut per_type: BTreeMap<String, BTreeMap<String, u64>> = BTreeMap::new();
@@ -3164,7 +4117,7 @@ fn main() {
         per_type.entry(t.to_string()).or_default().insert("candidates".into(), n);
     }
     let sum = |suffix: &str| -> u64 {
-        m.c.iter().filter(|(k, _)| k.ends_with(suffix) && !k.starts_with("BYTES-") && !k.starts_with("OPTION-") && !k.starts_with("OPTBYTES-") && !k.starts_with("LAYOUT-") && !k.starts_with("CTOR-VARIANTS")).map(|(_, v)| *v).sum()
+        m.c.iter().filter(|(k, _)| k.ends_with(suffix) && !k.starts_with("BYTES-") && !k.starts_with("OPTION-") && !k.starts_with("OPTBYTES-") && !k.starts_with("LAYOUT-") && !k.starts_with("SEQ-") && !k.starts_with("CTOR-VARIANTS")).map(|(_, v)| *v).sum()
     };
     let sum_in = |prefix: &str, suffix: &str| -> u64 { m.c.iter().filter(|(k, _)| k.ends_with(suffix) && k.starts_with(prefix)).map(|(_, v)| *v).sum() };
     println!("{:<12} {:>9} {:>9} {:>9} {:>12} {:>9}", "type", "cand", "generated", "refused", "roundtripped", "msg-rt");
@@ -3189,7 +4142,7 @@ fn main() {
         json!({
             "evaluations": m.evals,
             "distinct_nontrivial": env.stats.distinct_count(),
-            "rule": "distinct (type, reference RDATA) of non-empty values that completed the stand-alone round trip, plus distinct option encodings that round-tripped, plus distinct (type, RDATA octets) of grammar strings the parser accepted and that round-tripped, plus distinct parsed option (code, data) and distinct hand-built layout messages (owner shape, type, RDATA) that passed every check; hashed with FNV-1a over type and octets",
+            "rule": "distinct (type, reference RDATA) of non-empty values that completed the stand-alone round trip, plus distinct option encodings that round-tripped, plus distinct (type, RDATA octets) of grammar strings the parser accepted and that round-tripped, plus distinct parsed option (code, data) and distinct hand-built layout messages (owner shape, type, RDATA) that passed every check, plus distinct (compressor, final target octets) of compose sequences that passed every check; hashed with FNV-1a over type and octets",
             "exhaustive": true,
             "tier_menus": tier_name(tier),
             "values_generated": sum(":generated"),
@@ -3205,6 +4158,14 @@ fn main() {
             "name_layout_rejected": sum_in("LAYOUT-", ":rejected"),
             "name_layout_roundtripped": sum_in("LAYOUT-", ":roundtripped"),
             "name_layout_shapes": NAME_SHAPES,
+            "compose_sequences": {
+                "what": "2-3 compose steps on ONE compressing target with truncations between them: Static/Tree/Hash compressor over Vec and over a bounded buffer on which the first attempt fails inside the RDATA; raw target (append_compressed_name + compose_len_rdata + Truncate::truncate back to the record start / the RDLENGTH field / behind the first label of the first embedded name; after a failed attempt also the target as the error path left it) and MessageBuilder (push, push failing on buffer capacity, push failing on the push limit, rewind of the answer section); values: every name-bearing type over a family of related names (suffix, same leading labels, longer, case variant, unrelated), question/owner from the same family. Every record still complete at the end: RDLENGTH == octets written, fixed octets == reference, every embedded name decompresses in the final buffer (pointers strictly backwards) to the name composed, compression only in RFC 3597 section 4 types, the library's parser returns an equal value; builder route: the whole message read by the independent reader and by Message holds exactly the kept records",
+                "menu": sequence_menu,
+                "sequences": sequence_cases.load(std::sync::atomic::Ordering::Relaxed),
+                "sequences_roundtripped": sum_in("SEQ-", ":roundtripped"),
+                "sequences_with_compressed_rdata_name": sum_in("SEQ-", ":compressed"),
+                "sequences_not_applicable": sum_in("SEQ-", ":not-applicable"),
+            },
             "byte_grammar_cases": byte_cases.load(std::sync::atomic::Ordering::Relaxed),
             "byte_grammar_accepted": sum_in("BYTES-", ":accepted"),
             "byte_grammar_rejected": sum_in("BYTES-", ":rejected"),
